@@ -166,6 +166,9 @@ def run_locked(ck):
 
     props_ok = ck.coq_props()
 
+    if props_ok and not ck.quick():
+        ck.coqchk(["Qryn.props.C20"])
+
     # informational: is BasicAuth literally the first middleware everywhere (it is today)? not required by the property
     if props_ok:
         rc, out = ck.coq_eval("C20_strict", HEAD + "Definition S := Eval vm_compute in all_envs gen_natoms gen_must assembly_strict gen_assembly.\nPrint S.\n")
@@ -209,6 +212,8 @@ def run_locked(ck):
             rc, out = ck.go_run("authroutes", ["--assembly", GEN_JSON, "--replay", tmp, "--out", cp])
             for l in open(cp):
                 c = json.loads(l)
+                if c.get("kind") not in ("case", "auth"):
+                    continue
                 c["id"] = 9900000
                 c["class"] = "replay:" + c.get("class", "")
                 lines.append(c)
